@@ -399,7 +399,11 @@ def ref_chain(case):
                 continue
             key = found if 'name' in ref else q
             if key not in tasks:
-                return ('error', f'class input {q} of {full} resolves to {found}')
+                # a reference by class names exactly the task of that class: a task of a similar name does not stand in
+                if required:
+                    return ('error', f'input {q} of {full} not found')
+                ins[q] = {'default': default[0]}
+                continue
             ins[key] = {'task': key}
         t['inputs'] = ins
     # cycles
